@@ -90,6 +90,22 @@ FIELD_PDEFS = list(range(FIELD_PDEFS_START, len(PDEFS)))
 STATE_PDEFS_START = len(PDEFS)
 PDEFS += [[STW], [ST2, STW, FM], [STL, ST2]]          # conditional set_state only
 STATE_PDEFS = list(range(STATE_PDEFS_START, len(PDEFS)))
+# query postprocessing items in the model: embed / state template at top level (bound to the pipeline through the owner
+# link) and inside a `nest` item (bound to the nest transformation's own pipeline object)
+def EMB(i, pre, cond=None): return {"type": "embed", "id": i, "prefix": pre, "cond": cond}
+def TPL(i, key): return {"type": "template", "id": i, "key": key}
+def NEST(i, items, cond=None): return {"type": "nest", "id": i, "items": items, "cond": cond}
+POST_PDEFS_START = len(PDEFS)
+PDEFS += [
+    {"items": [STW], "post": [NEST("nest", [TPL("tpl", "index"), EMB("emb", "W: ", ["state", "index", "winevent"]), EMB("embw", "P: ", ["product", 1])])]},
+    {"items": [STW], "post": [TPL("tpl", "index"), EMB("emb", "W: ", ["state", "index", "winevent"])]},
+    {"items": [ST, FM], "post": [EMB("e0", "A: "), NEST("n2", [EMB("el", "L: ", ["product", 2]), TPL("t1", "index")], ["product", 2]), TPL("t2", "index")]},
+    {"items": [STL, RFS], "post": [NEST("n3", [EMB("x1", "1: ", ["product", 1]), EMB("x2", "2: ", ["state", "index", "lin"])]), NEST("n4", [TPL("t4", "index")], ["state", "index", "lin"])]},
+]
+POST_PDEFS = list(range(POST_PDEFS_START, len(PDEFS)))
+def pd_all(pd):
+    """entries of a pipeline definition as the model numbers them: processing items, then postprocessing items"""
+    return pd_items(pd) + (pd.get("post", []) if isinstance(pd, dict) else [])
 def pd_items(pd): return pd["items"] if isinstance(pd, dict) else pd
 def pd_vars(pd): return pd.get("vars", {}) if isinstance(pd, dict) else {}
 OPTIONS = [{}, {"index": "prod"}, {"index": "dev*", "ns": "n1"}, {"ns": "n2"}]
@@ -379,6 +395,19 @@ def gen_history(tier, rng):
                     selcases.append(mk_case([1, 0, 0], [["new", cls, 0, False], ["coll", 0, [e, pr, e], 2]]))
                     selcases.append(mk_case([1, 0, 0], [["new", cls, 0, True], ["coll", 0, [e], 0], ["new", cls, None, False], ["rule", 1, pr, 0]]))
     out += selcases if tier != "quick" else selcases[:6] + rng.sample(selcases, 160)
+    # query postprocessing, top level and nested: a rule that gets the state set, then a probe that does not (and the
+    # reverse) - same collection, earlier call on the same backend, another backend sharing the pipeline object
+    pp = []
+    for d in POST_PDEFS:
+        for cls in (0, 1, 7):
+            for first, probe in ((R_WIN, R_LIN), (R_LIN, R_WIN), (R_WIN, R_UNDEF), (R_C, R_LIN)):
+                for fmt in (0, 2):
+                    pp.append(mk_case([d, d, 0], [["new", cls, 0, False], ["coll", 0, [first, probe], fmt]]))
+                    pp.append(mk_case([d, d, 0], [["new", cls, 0, False], ["rule", 0, first, fmt], ["rule", 0, probe, fmt]]))
+                    pp.append(mk_case([d, d, 0], [["new", cls, 0, True], ["coll", 0, [first, first], fmt], ["coll", 0, [probe], fmt]]))
+                    pp.append(mk_case([d, d, 0], [["new", cls, 0, False], ["rule", 0, first, fmt], ["new", cls, 0, False], ["coll", 1, [probe], fmt]]))
+                    pp.append(mk_case([d, d, 0], [["new", cls, 0, False], ["coll", 0, [first], fmt], ["new", cls, 1, False], ["rule", 1, probe, fmt]]))
+    out += pp if tier != "quick" else pp[:10] + rng.sample(pp, 170)
     optcases = []
     for cls in (0, 1, 4, 5, 6):
         for d in VAR_PDEFS[:3]:
@@ -417,11 +446,25 @@ def gen_history(tier, rng):
         if i % 4 == 2: users[0] = rng.choice(VAR_PDEFS)
         if i % 4 == 3: users[0] = rng.choice(FIELD_PDEFS)
         if i % 8 == 4: users[0] = rng.choice(STATE_PDEFS)
+        if i % 8 == 0: users[0] = rng.choice(POST_PDEFS)
         out.append(mk_case(users, rand_history(rng, n, sharing=(i % 3 != 0))))
     return [c for c in out if valid(c["ops"])]
 
 # ---------------------------------------------------------------- Coq encoding
+def c_rcond(c):
+    if c is None: return "RAlways"
+    if c[0] == "product": return f"(RProduct {c[1]})"
+    return f"(RState {cstr(c[1])} {cstr(c[2])})"
+
+def c_post0(d):
+    return f"(P0Embed {cstr(d['prefix'])})" if d["type"] == "embed" else f"(P0Tpl {cstr(d['key'])})"
+
 def c_item(d):
+    if d["type"] in ("embed", "template") and ("prefix" in d or "key" in d):
+        return f"(Build_item {cstr(d['id'])} {c_rcond(d.get('cond'))} (TPost (PTop {c_post0(d)})))"
+    if d["type"] == "nest":
+        l = clist(f"({cstr(x['id'])}, {c_rcond(x.get('cond'))}, {c_post0(x)})" for x in d["items"])
+        return f"(Build_item {cstr(d['id'])} {c_rcond(d.get('cond'))} (TPost (PNest {l})))"
     iid = cstr(d["id"])
     c = d.get("cond")
     if c is None: cond = "RAlways"
@@ -541,7 +584,7 @@ def history_to_coq(c, r):
         for k in rule["conds"]:
             if k not in conds: conds.append(k)
     parses = clist(f"({cstr(k)}, {copt(c_tree(parse_cond(k)) if parse_cond(k) is not None else None)})" for k in conds)
-    users = clist(clist(c_item(d) for d in pd_items(c["pdefs"][u])) for u in c["users"])
+    users = clist(clist(c_item(d) for d in pd_all(c["pdefs"][u])) for u in c["users"])
     def c_vars(v):
         return clist(f"({cstr(k)}, {clist(cstr(x) for x in (x if isinstance(x, list) else [x]))})" for k, x in v.items())
     env = ("(mk_env " + clist(cbool(k["ne"]) for k in c["classes"]) + " " +
@@ -714,7 +757,9 @@ PROPERTY = Property(
          "both orders, incl. documents failing the type check; selector conditions (1 of / all of pattern, them) alone and mixed with "
          "identifiers over detection sections that coincide with those of earlier rules as sets but differ in order, differ by one name, or "
          "coincide exactly (earlier rule converted on the same backend, in the same collection, on another backend); every module-level dict / "
-         "list / set and lru_cache of the sigma.* modules is put back to its import-time content by the fresh setup, growth is reported in the strata. Exhaustive: all histories of <= 1 (quick) / <= 2 "
+         "list / set and lru_cache of the sigma.* modules is put back to its import-time content by the fresh setup, growth is reported in the strata; 4 pipeline definitions with query postprocessing in the model (top-level embed / state "
+         "template, `nest` with nested embed / template items under logsource and processing_state conditions) x conditional set_state x "
+         "order (rule that sets the state first / probe first) x same collection, earlier call, other backend sharing the pipeline object. Exhaustive: all histories of <= 1 (quick) / <= 2 "
          "(thorough) operations from a 17-operation alphabet after two backend creations in 3 sharing setups x all 14 probes (6 of them at length 2), sampled at the next "
          "length (70 / 400 histories x 2 probes per setup); 400 / 6000 random histories of 2..8 operations incl. collections with a filter document. The last operation is the probe; oracle = same probe with new class objects, new "
          "pipeline objects from the same YAML and cleared caches. non-trivial = probe is a conversion preceded by at least one "
